@@ -31,3 +31,4 @@ func verifPar(f, g func()) {
 	verifParEnd()
 }
 func verifParam(name string) int
+func verifIteStr(c bool, a, b string) string
